@@ -25,6 +25,9 @@ type c09Scenario struct {
 	ps       int
 	psow0    bool // 4096-byte journal sectors
 	stale    bool
+	// the stale PERSIST journal comes from an earlier, completed run of the SAME transaction kind, so the
+	// crashed transaction's journal is not longer than the cold one the long-lived handle has already seen
+	staleSame bool
 }
 
 func (s c09Scenario) name() string {
@@ -34,6 +37,9 @@ func (s c09Scenario) name() string {
 	}
 	if s.stale {
 		n += "/stale-journal"
+	}
+	if s.staleSame {
+		n += "-of-same-size"
 	}
 	return n
 }
@@ -118,12 +124,15 @@ func C09(run *hx.Run) {
 	run.Rule = "a real SQLite writer (python sqlite3, spilling and non-spilling transactions) runs under an LD_PRELOAD shim that counts its file operations on the database and journal (write/pwrite, ftruncate, fsync/fdatasync, unlink); for every (quick: every 3rd plus all sync/unlink/truncate boundaries) k in 1..N the writer is re-run on a fresh copy and killed before operation k, and for write operations also after half of the write (torn); then SQLite recovers a COPY of the (database, journal) pair left behind (reference O_k) and sqlittle opens and reads the ORIGINAL pair: every read operation must fail with an error or equal O_k; when the leftover journal is absent, empty or has no valid magic (clean leftover of a completed commit) reading must succeed and equal O_k. distinct = (scenario, k, variant)"
 	run.Assumptions = append(stdAssumptions, "crash = process death at a system-call boundary (the page cache survives, as for a killed process); torn writes at half length only", "the journal is classified by reading its first bytes: absent / empty / no magic => clean leftover")
 	scs := []c09Scenario{
-		{"delete", "spill-insert", 1024, false, false},
-		{"truncate", "update-many", 512, false, false},
-		{"persist", "spill-insert", 1024, false, true},
-		{"delete", "update-many", 1024, true, false},          // journal sector (4096) larger than the page
-		{"delete", "spill-insert+nosync", 1024, false, false}, // synchronous=off: journal header complete from the start, nRec = 0xffffffff
-		{"delete", "create-first", 1024, false, false},        // first transaction on a brand-new 0-byte file
+		{"delete", "spill-insert", 1024, false, false, false},
+		{"truncate", "update-many", 512, false, false, false},
+		{"persist", "spill-insert", 1024, false, true, false},
+		{"delete", "update-many", 1024, true, false, false},                                 // journal sector (4096) larger than the page
+		{"delete", "spill-insert+nosync", 1024, false, false, false},                        // synchronous=off: journal header complete from the start, nRec = 0xffffffff
+		{"delete", "create-first", 1024, false, false, false},                               // first transaction on a brand-new 0-byte file
+		{jmode: "delete", scenario: "alter-spill", ps: 1024},                                // uncommitted schema change spilled into page 1
+		{jmode: "truncate", scenario: "update-many", ps: 65536},                             // the largest page size (journal header stores 65536 as is)
+		{jmode: "persist", scenario: "update-many", ps: 1024, stale: true, staleSame: true}, // cold journal of the same length seen before the crash
 	}
 	stride := 3
 	if run.Thorough() {
@@ -135,14 +144,20 @@ func C09(run *hx.Run) {
 					if (sc == "grow" || sc == "two-statements") && ps == 1024 {
 						continue
 					}
-					scs = append(scs, c09Scenario{jm, sc, ps, ps == 512 && sc != "small-insert", jm == "persist" && ps != 4096})
+					scs = append(scs, c09Scenario{jm, sc, ps, ps == 512 && sc != "small-insert", jm == "persist" && ps != 4096, false})
 				}
 			}
 			for _, sc := range []string{"spill-insert+nosync", "update-many+nosync", "two-statements+nosync"} {
-				scs = append(scs, c09Scenario{jm, sc, 1024, false, false}, c09Scenario{jm, sc, 512, true, false})
+				scs = append(scs, c09Scenario{jm, sc, 1024, false, false, false}, c09Scenario{jm, sc, 512, true, false, false})
 			}
-			scs = append(scs, c09Scenario{jm, "create-first", 512, false, false}, c09Scenario{jm, "create-first", 4096, true, false})
+			scs = append(scs, c09Scenario{jm, "create-first", 512, false, false, false}, c09Scenario{jm, "create-first", 4096, true, false, false})
+			scs = append(scs, c09Scenario{jmode: jm, scenario: "alter-spill", ps: 1024}, c09Scenario{jmode: jm, scenario: "alter-spill", ps: 4096},
+				c09Scenario{jmode: jm, scenario: "update-many", ps: 65536}, c09Scenario{jmode: jm, scenario: "spill-insert+nosync", ps: 65536},
+				c09Scenario{jmode: jm, scenario: "small-insert", ps: 32768})
 		}
+		scs = append(scs, c09Scenario{jmode: "persist", scenario: "update-many", ps: 1024, stale: true, staleSame: true},
+			c09Scenario{jmode: "persist", scenario: "spill-insert", ps: 512, stale: true, staleSame: true},
+			c09Scenario{jmode: "persist", scenario: "delete-freelist", ps: 4096, stale: true, staleSame: true})
 	}
 	dir, cleanup := hx.ScratchDir("C09")
 	defer cleanup()
@@ -178,7 +193,11 @@ func C09(run *hx.Run) {
 			params = "psow=0"
 		}
 		if sc.stale {
-			w, err := hx.StartStepper(bdir, base, "persist", "small-insert", params, "count", 0, "")
+			first := "small-insert"
+			if sc.staleSame {
+				first = sc.writerScenario()
+			}
+			w, err := hx.StartStepper(bdir, base, "persist", first, params, "count", 0, "")
 			if err == nil {
 				w.Wait()
 			}
@@ -401,7 +420,11 @@ func C09(run *hx.Run) {
 					if err != nil {
 						continue
 					}
-					v2 := readVersioned(d)
+					// which operation is the first call on the handle rotates with the crash point
+					v2 := readVersionedFrom(d, t.k)
+					if ex.kind == "handle-opened-before-crash-never-used" {
+						run.See("first_call_on_unused_handle", verOps[t.k%len(verOps)])
+					}
 					// whatever the outcome, a finished call leaves no lock of ours behind
 					if ex.kind != "fresh-handle-with-foreign-reader" {
 						if locks, err := hx.FileLocks(orig); err == nil {
